@@ -6,6 +6,8 @@
 //!   vh drive  <module> --seed S --n N --out F  impl -> spec (records a trace)
 mod builddecode;
 mod caxml;
+mod decoders;
+mod tlv;
 mod certchain;
 mod cms;
 mod cmsmsg;
@@ -24,6 +26,9 @@ mod rtrsession;
 mod slurm;
 mod urialg;
 mod x509time;
+
+#[global_allocator]
+static GLOBAL: decoders::Meter = decoders::Meter;
 
 fn main() {
     common::quiet_panics();
@@ -52,6 +57,8 @@ fn main() {
         ("replay", "builddecode") => builddecode::replay(rest),
         ("replay", "caxml") => caxml::replay(rest),
         ("drive", "caxml") => caxml::drive(rest),
+        ("replay", "decoders") => decoders::replay(rest),
+        ("drive", "decoders") => decoders::drive(rest),
         ("replay", "sigobj") => sigobj::replay(rest),
         ("replay", "cmsmsg") => cmsmsg::replay(rest),
         ("drive", "cmsmsg") => cmsmsg::drive(rest),
